@@ -70,7 +70,8 @@ def run(rep, tier, seed):
     rep.add_tlc(rl, "Interp.tla family loop: Finishes (termination under weak fairness)")
     rd = tlc_family(rep, "MC_Totality", {"Family": "depth", "Tier": tier}, ["Total", "Export"], "c01-depth")
     rx = tlc_family(rep, "MC_Totality", {"Family": "lex", "Tier": tier}, ["Total", "Export"], "c01-lex")
-    for x in (rd, rx):
+    re_ = tlc_family(rep, "MC_Totality", {"Family": "exprlex", "Tier": tier}, ["Total", "Export"], "c01-exprlex")
+    for x in (rd, rx, re_):
         if not x.ok:
             raise vlib.ToolError(f"Totality.tla: {x.violated}")
         rep.add_tlc(x, "Totality.tla outcome sets")
@@ -93,6 +94,12 @@ def run(rep, tier, seed):
     for j, c in enumerate(lex):
         data = totc.lex_doc(c["toks"], c["nonutf8"], c["root"])
         cases.append({"k": f"lex-{j}", "b64": vlib.b64(data), "cfg": {}, "what": f"lex:{c['nonutf8']}", "allowed": c["allowed"]})
+    el = re_.replay
+    if not big and len(el) > 5000:
+        el = rnd.sample(el, 5000)
+    for j, c in enumerate(el):
+        data = totc.exprlex_doc(c["toks"], c["ctx"], random.Random(rnd.random()))
+        cases.append({"k": f"exprlex-{j}", "b64": vlib.b64(data), "cfg": {"loop_limit": 20}, "what": f"exprlex:{c['ctx']}", "allowed": c["allowed"]})
     # seeded byte mutation
     corpus = [open(f, "rb").read() for f in sorted(glob.glob(os.path.join(vlib.REPO, "examples", "*.xml")))]
     corpus += [totc.depth_doc(k, 3) for k in ("reuse-chain", "retry-chain", "surround-chain", "path-length", "nested-calls", "text-long", "for-list")]
